@@ -70,7 +70,7 @@ func isCapacityErr(s string) bool {
 
 func cases(tier string) int {
 	if tier == "thorough" {
-		return 1200
+		return 800
 	}
 	return 120
 }
@@ -1202,6 +1202,9 @@ func (x *exec) finish(wf *world.Fault) {
 			for _, in := range x.e.Provider.InstancesForUID(cs.uid) {
 				if in.State != "gone" {
 					r.Inc("diag_live_instance_of_gone_claim")
+					if _, have := r.Extra["diag_leak_witness"]; !have {
+						r.Extra["diag_leak_witness"] = map[string]any{"kind": "diagnostic (outside C14's statement): NodeClaim gone while an instance created for its UID is still running", "instance": in.ProviderID, "scenario": x.desc, "trace": append([]string(nil), x.trace...), "events": x.eventTail(25)}
+					}
 				}
 			}
 		}
@@ -1310,6 +1313,10 @@ func init() {
 			"m4_deleted_in_same_reconcile":                                        20,
 			"m4_delete_was_the_injected_failure":                                  3,
 			"restarts":                                                            20,
+			"faults_fired:500":                                                    100,
+			"faults_fired:409":                                                    100,
+			"faults_fired:crash":                                                  100,
+			"faults_fired:lost":                                                   50,
 		},
 	})
 }
